@@ -29,7 +29,7 @@ def dump_maps(src, folded):
 class C07(vlib.Check):
     id = "C07"
     props_modules = ["E3fpVerif.Props.C07"]
-    gen_items = ["fprint_fold"]
+    gen_items = ["fprint_fold", "fprinter_consts"]
     rule = ("seeded fingerprints of the three kinds (bits over powers of two up to 2^32 and non-powers for the "
             "rejection paths; index sets empty/sparse/low/high/colliding/dense), folded to every admissible and "
             "several inadmissible lengths with both methods, linked on/off, counts_method sum/max/min, one- and "
@@ -69,6 +69,32 @@ class C07(vlib.Check):
                 t2 = rng.choice([x for x in targets if x <= t])
                 self.count("two-step")
                 yield {"t": "fold2", "fp": fp, "mid": t, "bits": t2, "method": method}
+        # the fingerprinter route and the database route
+        from harness import molgen as MG
+        refs = MG.all_refs()
+        for _ in range(25 if self.tier == "quick" else 400):
+            ref = rng.choice(refs)
+            mol = MG.load_ref(ref)
+            o = MG.gen_opts(rng)
+            o["bits"] = 2 ** 32
+            self.count("fprinter-route")
+            yield {"t": "fprinter", "ref": ref, "conf": rng.randrange(mol.GetNumConformers()), "opts": o,
+                   "bits": rng.choice([2 ** 31, 4096, 1024, 64, 8, 1])}
+        for _ in range(25 if self.tier == "quick" else 400):
+            kind = rng.choice(["bit", "count", "float"])
+            bits = rng.choice([64, 1024, 2 ** 32])
+            fps = []
+            for _ in range(rng.randint(1, 4)):
+                f = gen_fp(rng, kind, bits, level=5, maxn=10)
+                if kind == "count":
+                    f["cnt"] = [[i, v if int(v) <= 255 else "255"] for i, v in f["cnt"]]
+                fps.append(f)
+            b = bits
+            for _ in range(rng.randint(0, 6)):
+                if b > 1:
+                    b //= 2
+            self.count("db-route")
+            yield {"t": "dbfold", "kind": kind, "fps": fps, "bits": b}
 
     # ------------------------------------------------------------------ implementation
     def _fold(self, f, case):
@@ -79,7 +105,41 @@ class C07(vlib.Check):
             kw["counts_method"] = CM[case["cm"]]
         return f.fold(case["bits"], method=case["method"], **kw)
 
+    def _fprinter_pair(self, case):
+        from harness import molgen as MG
+        mol = MG.load_ref(case["ref"])
+        conf = mol.GetConformer(case["conf"])
+        o = case["opts"]
+        if not MG.in_domain(mol, o):
+            return None
+        big = MG.make_fprinter(o)
+        big.run(conf, mol)
+        small = MG.make_fprinter(dict(o, bits=case["bits"]))
+        small.run(conf, mol)
+        return big.get_fingerprint_at_level(-1), small.get_fingerprint_at_level(-1), big.get_fingerprint_at_level(-1, bits=case["bits"])
+
+    def _db_pair(self, case):
+        from harness.dbgen import FingerprintDatabase, dump_db
+        from harness.fpgen import CLS
+        db = FingerprintDatabase(fp_type=CLS[case["kind"]], level=5)
+        db.add_fingerprints([make_fp(f) for f in case["fps"]])
+        before = dump_db(db)
+        folded = db.fold(case["bits"])
+        return db, before, folded
+
     def impl(self, case):
+        if case["t"] == "fprinter":
+            def go():
+                r = self._fprinter_pair(case)
+                if r is None:
+                    return None
+                return {"unfolded": dump_fp(r[0]), "direct": dump_fp(r[1]), "requested": dump_fp(r[2])}
+            return attempt(go)
+        if case["t"] == "dbfold":
+            def go():
+                db, before, folded = self._db_pair(case)
+                return [dump_fp(folded[i]) for i in range(len(case["fps"]))]
+            return attempt(go)
         f = make_fp(case["fp"])
         if case["t"] == "fold":
             res = attempt(lambda: self._fold(f, case), lambda g: {"fp": dump_fp(g), "maps": dump_maps(f, g)})
@@ -91,6 +151,13 @@ class C07(vlib.Check):
         raise ValueError(case["t"])
 
     def model_ops(self, case):
+        if case["t"] == "fprinter":
+            r = self.impl(case)
+            if "ok" not in r or r["ok"] is None:
+                return [{"op": "fpr.hash", "words": []}]
+            return [{"op": "fp.fold", "fp": r["ok"]["unfolded"], "bits": case["bits"], "method": 0}]
+        if case["t"] == "dbfold":
+            return [{"op": "fp.fold", "fp": f, "bits": case["bits"], "method": 0} for f in case["fps"]]
         if case["t"] == "fold":
             cm = case.get("cm") if case["fp"]["kind"] != "bit" else None
             return [{"op": "fp.fold", "fp": case["fp"], "bits": case["bits"], "method": case["method"], "counts_method": cm}]
@@ -99,12 +166,28 @@ class C07(vlib.Check):
                     {"op": "fp.fold", "fp": case["fp"], "bits": case["bits"], "method": case["method"]}]
 
     def model_answer(self, case, answers):
+        if case["t"] == "fprinter":
+            return answers[0]
+        if case["t"] == "dbfold":
+            return answers
         if case["t"] == "fold":
             return {"res": answers[0], "src_after": case["fp"]}
         mid, one = answers
         return {"mid": mid, "one": one}
 
     def compare(self, case, a_impl, a_model):
+        if case["t"] == "fprinter":
+            if "ok" not in a_impl or a_impl["ok"] is None:
+                return None
+            want = a_model.get("ok", {}).get("fp")
+            if a_impl["ok"]["direct"] != want or a_impl["ok"]["requested"] != want:
+                return {"impl": a_impl["ok"], "model_fold_of_unfolded": want}
+            return None
+        if case["t"] == "dbfold":
+            if "ok" not in a_impl:
+                return {"impl": a_impl}
+            want = [dict(a["ok"]["fp"], level=5) if "ok" in a else a for a in a_model]
+            return None if a_impl["ok"] == want else {"impl": a_impl["ok"], "model": want}
         if case["t"] == "fold":
             return super().compare(case, a_impl, a_model)
         # two-step: the model's second step is run on the model's own intermediate
@@ -122,6 +205,27 @@ class C07(vlib.Check):
 
     # ------------------------------------------------------------------ the property itself
     def prop(self, case):
+        if case["t"] == "fprinter":
+            r = self._fprinter_pair(case)
+            if r is None:
+                return None
+            big, small, req = r
+            want = dump_fp(big.fold(case["bits"]))
+            for name, got in (("Fingerprinter(bits=b)", small), ("get_fingerprint_at_level(bits=b)", req)):
+                if dump_fp(got) != want:
+                    return {"key": "fprinter-route-differs", "what": "%s differs from folding the 2^32-bit fingerprint to %d" % (name, case["bits"])}
+            return None
+        if case["t"] == "dbfold":
+            from harness.dbgen import dump_db
+            db, before, folded = self._db_pair(case)
+            if dump_db(db) != before:
+                return {"key": "dbfold-mutates-source", "what": "FingerprintDatabase.fold changed the source database"}
+            for i, spec in enumerate(case["fps"]):
+                want = dump_fp(make_fp(spec).fold(case["bits"]))
+                got = dump_fp(folded[i])
+                if got != want:
+                    return {"key": "db-route-differs:" + case["kind"], "what": "row %d of the folded database differs from folding the fingerprint" % i, "want": want, "got": got}
+            return None
         spec = case["fp"]
         f = make_fp(spec)
         before = dump_fp(f)
@@ -205,6 +309,8 @@ class C07(vlib.Check):
         return ",".join(v) or "plain"
 
     def nontrivial(self, case, a_impl):
+        if case["t"] in ("fprinter", "dbfold"):
+            return vlib.canon(case) if "ok" in a_impl and a_impl["ok"] else None
         if case["t"] == "fold" and "ok" in a_impl.get("res", {}) and case["fp"]["idx"]:
             return (case["fp"]["kind"], case["fp"]["bits"], case["bits"], case["method"], tuple(case["fp"]["idx"]))
         if case["t"] == "fold2" and case["fp"]["idx"]:
@@ -212,6 +318,8 @@ class C07(vlib.Check):
         return None
 
     def neighbours(self, case):
+        if case["t"] not in ("fold", "fold2"):
+            return []
         out = []
         for m in (0, 1):
             c = dict(case)
